@@ -125,6 +125,68 @@ func run(c *mon.Case) {
 			}
 		}
 	}
+	// ---- second phase: the same obligation at every point of a move history. Bounds
+	// queries, rejected and accepted moves precede the swap attempts, so anything the
+	// block remembers between calls (cached bounds, remembered neighbours, indices) is
+	// exercised; the pair is judged in the block's *current* order.
+	for bi, b := range code.Blocks() {
+		n := len(b.Instructions())
+		if n < 3 {
+			continue
+		}
+		var hist []string
+		for step := 0; step < 12; step++ {
+			switch r.Intn(3) {
+			case 0:
+				i := r.Intn(n)
+				mon.Try(func() { b.LowerBound(i); b.UpperBound(i) })
+				hist = append(hist, fmt.Sprintf("bounds(%d)", i))
+				continue
+			default:
+				from, to := r.Intn(n), r.Intn(n)
+				var merr error
+				pn, val, stack := mon.Try(func() { merr = b.Move(from, to) })
+				if pn {
+					c.Fail("C06.panic", nil, "Move(%d,%d) panicked: %v\n%s", from, to, val, stack)
+					return
+				}
+				hist = append(hist, fmt.Sprintf("move(%d,%d)=%v", from, to, merr == nil))
+				if merr != nil || from == to {
+					continue
+				}
+			}
+			c.Count("history_points", 1)
+			ins := b.Instructions()
+			for i := 0; i+1 < len(ins); i++ {
+				a, bb := byAddr[uint64(ins[i].OrigAddr())], byAddr[uint64(ins[i+1].OrigAddr())]
+				term := i+1 == len(ins)-1 && bb.Facts.RealJump()
+				// a real jump that is no longer last cannot occur (moves keep it last)
+				ok, _ := independent(a, bb, term)
+				c.Eval(1)
+				if !ok || a.Facts.RealJump() {
+					continue
+				}
+				c.Count("independent_pairs_after_history", 1)
+				for _, mv := range [][2]int{{i, i + 1}, {i + 1, i}} {
+					var merr error
+					pn, val, stack := mon.Try(func() { merr = b.Move(mv[0], mv[1]) })
+					if pn {
+						c.Fail("C06.panic", nil, "Move panicked: %v\n%s", val, stack)
+						return
+					}
+					if merr != nil {
+						c.Fail("C06.swap-rejected", map[string]string{"pair": kinds(a, bb), "when": "after-history"}, "block %d after %v: Move(%d,%d) of independent adjacent instructions rejected: %v\n  %s\n  %s", bi, hist, mv[0], mv[1], merr, a, bb)
+						return
+					}
+					hist = append(hist, fmt.Sprintf("swap(%d,%d)", mv[0], mv[1]))
+					if rerr := b.Move(mv[1], mv[0]); rerr != nil {
+						c.Fail("C06.swap-rejected", map[string]string{"pair": "restore", "when": "after-history"}, "block %d after %v: swapping back rejected: %v", bi, hist, rerr)
+						return
+					}
+				}
+			}
+		}
+	}
 }
 
 func kinds(a, b depgen.Ins) string {
@@ -141,7 +203,7 @@ func kinds(a, b depgen.Ins) string {
 func main() {
 	mon.Main(mon.Spec{
 		Prop: "C06",
-		Rule: "case = every adjacent pair of every block of generated synthetic codes (1..4 blocks x 1..12 instructions over 2-4 registers, 2 memory spaces, type flags, jumps to next, terminators); non-trivial = pair satisfying the independence predicate of the statement, distinct by the two instructions",
+		Rule: "case = every adjacent pair of every block of generated synthetic codes (1..4 blocks x 1..12 instructions over 2-4 registers, 2 memory spaces, type flags, jumps to next, terminators), first on the fresh block, then again for every adjacent pair of the current order after each accepted move of a 12-step history of bounds queries and random move attempts; non-trivial = pair satisfying the independence predicate of the statement, distinct by the two instructions",
 		Explanation: "oracle: own read/write-set extraction over the effects and the statement's predicate verbatim (no shared register incl. IP, no memory space accessed by both with a write, no syscall/CPU-state change, no memory-ordering instruction paired with a memory access or another memory-ordering instruction, the later one not the block's terminating jump); every independent adjacent pair must be swappable in both directions. Pairs that share anything are not judged.",
 		Assumptions: []string{"blocks built through deps.NewCode from synthetic instructions"},
 		Cases: func(t string) int {
@@ -156,7 +218,7 @@ func main() {
 			}
 			return 30000
 		},
-		RequiredCounts: []string{"independent_pairs", "dependent_pairs"},
+		RequiredCounts: []string{"independent_pairs", "dependent_pairs", "independent_pairs_after_history", "history_points"},
 		Run:            run,
 	})
 }
